@@ -702,7 +702,10 @@ class Unit:
 
     def __hash__(self) -> int:
         """hash(self)"""
-        return hash(self.symbol)
+        if self._equiv is None:
+            return hash(self._symbol)
+        # equal units (same type, same scale) must have equal hashes
+        return hash((self._qty_cls, self._equiv))
 
     def __copy__(self) -> Unit:
         """Return self (:class:`Unit` instances are immutable)."""
@@ -1073,17 +1076,18 @@ class QuantityMeta(ClassWithDefinitionMeta):
         cls._converters: List[ConverterT] = []
 
     def _make_unit(cls, symbol: str, name: Optional[str],  # noqa: N805
-                   define_as: Optional[UnitDefT]) -> Unit:
+                   define_as: Optional[UnitDefT],
+                   equiv: Optional[Rational] = None) -> Unit:
         unit_cls = cls._unit_cls
         unit = object.__new__(unit_cls)
         unit._qty_cls = cls
         if isinstance(define_as, Term):
             unit._definition = define_as
-            unit._equiv = define_as.normalized().num_elem or ONE
+            unit._equiv = equiv or define_as.normalized().num_elem or ONE
         else:
             assert define_as is None, "Unknown type of Unit definition."
             unit._definition = None
-            unit._equiv = None
+            unit._equiv = equiv
         assert symbol, "A symbol must be given for the unit."
         try:
             _SYMBOL_UNIT_MAP[symbol]
@@ -1102,9 +1106,8 @@ class QuantityMeta(ClassWithDefinitionMeta):
 
     def _make_ref_unit(cls, symbol: str, name: Optional[str],  # noqa: N805
                        define_as: Optional[UnitDefT]) -> Unit:
-        unit = cls._make_unit(symbol, name, define_as=define_as)
-        unit._equiv = ONE
-        return unit
+        # the scale must be set before the unit gets registered (hashed)
+        return cls._make_unit(symbol, name, define_as=define_as, equiv=ONE)
 
     @property
     def ref_unit(cls) -> Optional[Unit]:  # noqa: N805
